@@ -458,9 +458,15 @@ def run_scenario(scn, *, bus="sync", chooser=None, seed=0, max_steps=None, use_s
                     os.rmdir(d)
                 except OSError:
                     pass
-            sched = next(s_._scheduler for s_ in sims if s_._scheduler is not None)
+            def parts_of(s_):
+                # (whatever the simulation object calls its attributes: the scheduler is the MasterScheduler it holds, the
+                #  components are the mapping of names to components it holds)
+                sch = next((v for v in vars(s_).values() if isinstance(v, MasterScheduler)), None)
+                cps = next((v for v in vars(s_).values() if isinstance(v, dict) and all(hasattr(x, "run_forever") for x in v.values())), None) or {}
+                return sch, cps
+            sched = next(parts_of(s_)[0] for s_ in sims if parts_of(s_)[0] is not None)
             info["scheduler"] = sched
-            info["built"] = [{"scheduler": s_._scheduler is not None, "components": sorted((s_._components or {}).keys())} for s_ in sims]
+            info["built"] = [{"scheduler": parts_of(s_)[0] is not None, "components": sorted(parts_of(s_)[1].keys())} for s_ in sims]
             # (get_interface is consulted again when the components are started: the registration stays until the run is over)
             tasks = []
             for k, s_ in enumerate(sims):
